@@ -620,34 +620,58 @@ def run_impl(case):
             if err is not None:
                 obs = case.get('expect') or obs       # the correspondence is not the point of this family
         return {'obs': obs, 'd_fail': fails, 'nontrivial': True, 'key': case['sql'], 'stats': {'family_shadow': 1}}
+    raised = None
     try:
         for e in case['entries']:
             k = e[0]
-            if k == 'fn':
-                values.append(domain.find_symbol(e[1])(**e[2]))
-            elif k == 'brg':
-                values.append(getattr(domain.find_symbol(e[1]), e[2])(**e[3]))
-            elif k == 'cop':
-                values.append(getattr(domain.find_class(e[1]), e[2])(**e[3]))
-            elif k == 'iop':
-                values.append(getattr(insts[e[1]][e[2]], e[3])(**e[4]))
-            elif k == 'dattr':
-                values.append(getattr(insts[e[1]][e[2]], e[3]))
-            elif k == 'set':
-                setattr(insts[e[1]][e[2]], e[3], e[4])
-                values.append(None)
-            elif k == 'enum':
-                values.append(getattr(domain.find_symbol(e[1]), e[2]))
-            else:
-                values.append(domain.find_symbol(e[1]))
+            try:
+                values.append(_invoke(domain, insts, e))
+            except Exception as ex:          # an in-domain invocation must not raise: a finding, with the program
+                raised = (len(values), '%s: %s' % (type(ex).__name__, str(ex)[:200]))
+                values.append(_Raised(type(ex).__name__))
+                break
     finally:
         _CALLS = None
     obs = canon_impl(domain, values)
+    return _judge(case, obs, calls, raised)
+
+
+class _Raised(object):
+    def __init__(self, name):
+        self.name = name
+
+
+def _invoke(domain, insts, e):
+    k = e[0]
+    if k == 'fn':
+        return domain.find_symbol(e[1])(**e[2])
+    if k == 'brg':
+        return getattr(domain.find_symbol(e[1]), e[2])(**e[3])
+    if k == 'cop':
+        return getattr(domain.find_class(e[1]), e[2])(**e[3])
+    if k == 'iop':
+        return getattr(insts[e[1]][e[2]], e[3])(**e[4])
+    if k == 'dattr':
+        return getattr(insts[e[1]][e[2]], e[3])
+    if k == 'set':
+        setattr(insts[e[1]][e[2]], e[3], e[4])
+        return None
+    if k == 'enum':
+        return getattr(domain.find_symbol(e[1]), e[2])
+    return domain.find_symbol(e[1])
+
+
+def _judge(case, obs, calls, raised):
     fails = []
     exp = case.get('expect')
     if exp is not None and obs != exp:
         comp, what = 'shape', ''
-        if obs[1] != exp[1]:
+        if raised is not None:
+            k, msg = raised
+            e = case['entries'][k]
+            comp = 'exception:' + msg.split(':')[0]
+            what = 'invocation #%d %r raised %s; the bodies specify the value %r' % (k, e, msg, exp[1][k] if k < len(exp[1]) else None)
+        elif obs[1] != exp[1]:
             for k, (a, b) in enumerate(zip(obs[1], exp[1])):
                 if a != b:
                     e = case['entries'][k]
